@@ -81,7 +81,7 @@ static int decode_filename(const char *filename, size_t line_no, char *buffer)
 		}
 
 		if (*src != '\0')
-			return -1;
+			goto fail_canon;
 	}
 
 	if (canonicalize_name(buffer))
